@@ -101,9 +101,13 @@ pub fn start3(b1: u8, b2: u8, b3: u8) -> Prefilter {
 #[cfg(feature = "perf-literal")]
 pub fn rare1(b1: u8, off: u8) -> Prefilter {
     Prefilter {
+        // (fields this hook does not know - a change that adds state to the
+        // finder - start zeroed instead of breaking the build)
+        #[allow(clippy::needless_update)]
         finder: Arc::new(RareBytesOne {
             byte1: b1,
             offset: RareByteOffset { max: off },
+            ..unsafe { core::mem::MaybeUninit::zeroed().assume_init() }
         }),
         memory_usage: 0,
     }
@@ -111,10 +115,12 @@ pub fn rare1(b1: u8, off: u8) -> Prefilter {
 #[cfg(feature = "perf-literal")]
 pub fn rare2(offsets: &[u8; 256], b1: u8, b2: u8) -> Prefilter {
     Prefilter {
+        #[allow(clippy::needless_update)]
         finder: Arc::new(RareBytesTwo {
             offsets: offsets_from_array(offsets),
             byte1: b1,
             byte2: b2,
+            ..unsafe { core::mem::MaybeUninit::zeroed().assume_init() }
         }),
         memory_usage: 0,
     }
@@ -122,11 +128,13 @@ pub fn rare2(offsets: &[u8; 256], b1: u8, b2: u8) -> Prefilter {
 #[cfg(feature = "perf-literal")]
 pub fn rare3(offsets: &[u8; 256], b1: u8, b2: u8, b3: u8) -> Prefilter {
     Prefilter {
+        #[allow(clippy::needless_update)]
         finder: Arc::new(RareBytesThree {
             offsets: offsets_from_array(offsets),
             byte1: b1,
             byte2: b2,
             byte3: b3,
+            ..unsafe { core::mem::MaybeUninit::zeroed().assume_init() }
         }),
         memory_usage: 0,
     }
